@@ -54,9 +54,12 @@ def resolveRenamed (crate : Str) (r : Renames) (imports : List ImportedType) (id
     | none => renameOf r id crate
 
 mutual
-  /-- `check_type`: only `Simple` ids are rewritten -/
+  /-- `check_type`: `Simple` ids and (since the `fix:` commit 821da1d) the head of a `Generic`
+  application are rewritten -/
   def checkType (crate : Str) (r : Renames) (imports : List ImportedType) : RustType → RustType
-    | .generic id ps => .generic id (checkTypes crate r imports ps)
+    | .generic id ps => match resolveRenamed crate r imports id with
+      | some n => .generic n (checkTypes crate r imports ps)
+      | none => .generic id (checkTypes crate r imports ps)
     | .vec t => .vec (checkType crate r imports t)
     | .array t n => .array (checkType crate r imports t) n
     | .slice t => .slice (checkType crate r imports t)
